@@ -36,6 +36,14 @@ SHAPES = [
     (SRC, r"TestPlugin\s*\*\s*TestPlugin::getPluginByName\s*\([^)]*\)\s*\{",
      "if(name==name_)returnthis;if(next_)returnnext_->getPluginByName(name);return(next_);",
      "TestPlugin::getPluginByName"),
+    (REG, r"void\s+TestRegistry::runAllTests\s*\([^)]*\)\s*\{",
+     "boolgroupStart=true;result.testsStarted();for(UtestShell*test=tests_;test!=NULLPTR;test=test->getNext()){"
+     "if(runInSeperateProcess_)test->setRunInSeperateProcess();if(runIgnored_)test->setRunIgnored();"
+     "if(groupStart){result.currentGroupStarted(test);groupStart=false;}result.countTest();"
+     "if(testShouldRun(test,result)){result.currentTestStarted(test);test->runOneTest(firstPlugin_,result);"
+     "result.currentTestEnded(test);}if(endOfGroup(test)){groupStart=true;result.currentGroupEnded(test);}}"
+     "result.testsEnded();currentRepetition_++;",
+     "TestRegistry::runAllTests (the head of the chain must be read from firstPlugin_ for every test)"),
     (REG, r"void\s+TestRegistry::installPlugin\s*\([^)]*\)\s*\{",
      "firstPlugin_=plugin->addPlugin(firstPlugin_);", "TestRegistry::installPlugin"),
     (REG, r"void\s+TestRegistry::resetPlugins\s*\(\s*\)\s*\{",
